@@ -1,6 +1,6 @@
 """Normalisation of the parsed source before any rule looks at it.
 
-The rules recognise constructs by their shape.  Three families of edits
+The rules recognise constructs by their shape.  Four families of edits
 change the shape of a function without changing what it does, and are
 undone here so that every rule sees one canonical form:
 
@@ -16,6 +16,13 @@ N3  new private helpers  a function that is NOT in the inventory of the
                          sites: the rules were written against the
                          functions of the inventory, and a helper extracted
                          from one of them is part of it.
+
+N4  recursive closures   a function whose whole body is a nested recursive
+                         function over some of its parameters and
+                         `return nested(args)` is rewritten to the plain
+                         recursion it abbreviates (the nested function's
+                         body, recursive calls re-addressed to the outer
+                         function with the captured parameters passed on).
 
 Every transformation keeps the line numbers of the statements it moves
 (reports still point into the file).  A construct that does not fit the
@@ -434,6 +441,91 @@ def inline_new_helpers(tree, modname, inventory):
             val = _Subst(mapping).visit(val)
         return pre + new, val
 
+    def expand_tail(call, cls):
+        """`return helper(args)` with a helper of any shape (several
+        returns, raises): the statements of the helper, its parameters
+        bound first; its returns become returns of the caller."""
+        if isinstance(call.func, ast.Name) and (
+                None, call.func.id) in helpers:
+            h = helpers[(None, call.func.id)]
+            params = [p.arg for p in h.args.posonlyargs + h.args.args]
+        elif isinstance(call.func, ast.Attribute) and isinstance(
+                call.func.value, ast.Name) and \
+                call.func.value.id == 'self' and (
+                    cls, call.func.attr) in helpers:
+            h = helpers[(cls, call.func.attr)]
+            params = [p.arg for p in h.args.posonlyargs + h.args.args]
+            if not params or params[0] != 'self':
+                return None
+            params = params[1:]
+        else:
+            return None
+        a = h.args
+        if a.vararg or a.kwarg or a.kwonlyargs or h.decorator_list:
+            return None
+        if any(isinstance(x, (ast.Yield, ast.YieldFrom, ast.Global,
+                              ast.Nonlocal, ast.FunctionDef, ast.Lambda,
+                              ast.ClassDef))
+               for st in h.body for x in ast.walk(st)):
+            return None
+        if any(isinstance(x, ast.Call) and (
+                (isinstance(x.func, ast.Name) and x.func.id == h.name)
+                or (isinstance(x.func, ast.Attribute)
+                    and x.func.attr == h.name)) for x in ast.walk(h)):
+            return None
+        body = [st for st in h.body if not (
+            isinstance(st, ast.Expr) and isinstance(
+                st.value, ast.Constant))]
+        if not body or len(body) > 60:
+            return None
+        args = list(call.args)
+        if any(isinstance(x, ast.Starred) for x in args):
+            return None
+        bound = dict(zip(params, args))
+        for k in call.keywords:
+            if k.arg is None or k.arg not in params or k.arg in bound:
+                return None
+            bound[k.arg] = k.value
+        for p, d in zip(params[len(params) - len(a.defaults):],
+                        a.defaults):
+            bound.setdefault(p, d)
+        if set(bound) != set(params):
+            return None
+        if not all(_simple_arg(v) for v in bound.values()):
+            return None
+        assigned = {x.id for st in body for x in ast.walk(st)
+                    if isinstance(x, ast.Name)
+                    and isinstance(x.ctx, (ast.Store, ast.Del))}
+        counter[0] += 1
+        tag = f'__h{counter[0]}'
+        pre, mapping = [], dict()
+        for p, v in bound.items():
+            if p in assigned:
+                st = ast.Assign(
+                    targets=[ast.Name(id=p + tag, ctx=ast.Store())],
+                    value=copy.deepcopy(v))
+                ast.copy_location(st, call)
+                pre.append(st)
+            else:
+                mapping[p] = v
+        local = set(assigned)
+
+        class Ren(ast.NodeTransformer):
+            def visit_Name(self, node):
+                if node.id in local:
+                    node.id = node.id + tag
+                return node
+        new = []
+        for st in body:
+            s2 = copy.deepcopy(st)
+            s2 = Ren().visit(s2)
+            s2 = _Subst(mapping).visit(s2)
+            new.append(s2)
+        if not isinstance(new[-1], (ast.Return, ast.Raise)):
+            new.append(ast.copy_location(
+                ast.Return(value=ast.Constant(value=None)), call))
+        return pre + new
+
     def process(fn, cls):
         nonlocal n
         changed = True
@@ -456,6 +548,15 @@ def inline_new_helpers(tree, modname, inventory):
                     if call is None:
                         continue
                     r = expand(call, cls)
+                    if r is None and isinstance(s, ast.Return):
+                        tail = expand_tail(call, cls)
+                        if tail is not None:
+                            for x in tail:
+                                ast.fix_missing_locations(x)
+                            blk[k:k + 1] = tail
+                            n += 1
+                            changed = True
+                            break
                     if r is None:
                         continue
                     stmts, val = r
@@ -524,8 +625,111 @@ def inline_new_helpers(tree, modname, inventory):
 
 
 # ------------------------------------------------------------------- driver
+def unnest_recursive_closure(fn, is_method):
+    """N4: a function whose whole body is a nested recursive function
+    over some of its parameters and `return nested(args)`:
+
+        def f(u, table, cache):
+            def rec(x):
+                ... rec(y) ... table ... cache ...
+            return rec(u)
+
+    is the closure-converted form of the recursion `f(u, table, cache)`
+    with `f(y, table, cache)` inside.  It is rewritten to that form when
+    the nested function does not rebind a variable of the outer one and
+    the outer one does nothing else.  Returns 1 if rewritten."""
+    body = [s for s in fn.body if not (
+        isinstance(s, ast.Expr) and isinstance(s.value, ast.Constant))]
+    if len(body) != 2 or not isinstance(body[0], ast.FunctionDef) or \
+            not isinstance(body[1], ast.Return):
+        return 0
+    g, ret = body
+    call = ret.value
+    if not (isinstance(call, ast.Call) and isinstance(
+            call.func, ast.Name) and call.func.id == g.name
+            and not call.keywords):
+        return 0
+    ga = g.args
+    if ga.vararg or ga.kwarg or ga.kwonlyargs or ga.defaults or \
+            g.decorator_list:
+        return 0
+    gparams = [a.arg for a in ga.posonlyargs + ga.args]
+    fa = fn.args
+    if fa.vararg or fa.kwarg or fa.kwonlyargs:
+        return 0
+    fparams = [a.arg for a in fa.posonlyargs + fa.args]
+    own = fparams[1:] if is_method else fparams
+    if len(call.args) != len(gparams) or not all(
+            isinstance(a, ast.Name) and a.id in own for a in call.args):
+        return 0
+    outer_for = {p: a.id for p, a in zip(gparams, call.args)}
+    if len(set(outer_for.values())) != len(gparams):
+        return 0
+    # the nested function must be recursive, must not rebind a variable
+    # of the outer function, and must not be used as a value
+    recursive = False
+    for n in ast.walk(g):
+        if isinstance(n, (ast.Nonlocal, ast.Global, ast.Lambda)):
+            return 0
+        if isinstance(n, ast.FunctionDef) and n is not g:
+            return 0
+        if isinstance(n, ast.Name) and isinstance(n.ctx, ast.Store) and \
+                n.id in fparams:
+            return 0
+        if isinstance(n, ast.Name) and n.id == g.name and not (
+                isinstance(getattr(n, '_parent_call', None), ast.Call)):
+            pass
+    calls = []
+    for n in ast.walk(g):
+        if isinstance(n, ast.Call) and isinstance(
+                n.func, ast.Name) and n.func.id == g.name:
+            if n.keywords or len(n.args) != len(gparams) or any(
+                    isinstance(a, ast.Starred) for a in n.args):
+                return 0
+            calls.append(n)
+            recursive = True
+    uses = [n for n in ast.walk(g) if isinstance(n, ast.Name)
+            and n.id == g.name]
+    if not recursive or len(uses) != len(calls):
+        return 0
+    # locals of the nested function that collide with outer parameters
+    # they do not stand for
+    glocals = {n.id for n in ast.walk(g) if isinstance(n, ast.Name)
+               and isinstance(n.ctx, ast.Store)}
+    if glocals & (set(fparams) - set(outer_for.values())):
+        return 0
+    # rename the nested parameters to the outer names
+    for n in ast.walk(g):
+        if isinstance(n, ast.Name) and n.id in outer_for:
+            n.id = outer_for[n.id]
+    # recursive calls become calls of the outer function
+    for c in calls:
+        given = dict(zip([outer_for[p] for p in gparams], c.args))
+        args = [given.get(p, ast.Name(id=p, ctx=ast.Load())) for p in own]
+        if is_method:
+            c.func = ast.Attribute(
+                value=ast.Name(id=fparams[0], ctx=ast.Load()),
+                attr=fn.name, ctx=ast.Load())
+        else:
+            c.func = ast.Name(id=fn.name, ctx=ast.Load())
+        c.args = args
+    doc = [s for s in fn.body if isinstance(s, ast.Expr) and isinstance(
+        s.value, ast.Constant)][:1]
+    gbody = [s for s in g.body if not (
+        isinstance(s, ast.Expr) and isinstance(s.value, ast.Constant))]
+    fn.body = doc + gbody
+    ast.fix_missing_locations(fn)
+    return 1
+
+
 def normalise_module(tree, modname, inventory=None):
-    stats = dict(aliases=0, loops=0, helpers=0)
+    stats = dict(aliases=0, loops=0, helpers=0, closures=0)
+    for owner in ast.walk(tree):
+        if isinstance(owner, (ast.Module, ast.ClassDef)):
+            for fn in owner.body:
+                if isinstance(fn, ast.FunctionDef):
+                    stats['closures'] += unnest_recursive_closure(
+                        fn, isinstance(owner, ast.ClassDef))
     # data attributes: whatever some method stores through `self`
     data = set(DATA_ATTRS)
     callables = {x.name for x in ast.walk(tree)
